@@ -74,6 +74,11 @@ def main():
             p2 = os.path.join('/tmp', 'vs_patch.diff')
             open(p2, 'w').write(fresh_patch)
             rc, o = sh(['git', '-C', '/repo', 'apply', p2])
+            saved = {}
+            for pid in pids:
+                ev = os.path.join(VERIF, 'evidence', pid + '.json')
+                if os.path.exists(ev):
+                    saved[ev] = open(ev).read()
             try:
                 for pid in pids:
                     rc, o = sh([os.path.join(VERIF, 'check'), pid, '--tier', 'quick'], cwd=VERIF)
@@ -81,6 +86,9 @@ def main():
                     checks[pid] = {'exit': rc, 'lines': lines[:6]}
             finally:
                 sh(['git', '-C', '/repo', 'checkout', '--', '.'])
+                # evidence files must describe the unchanged tree: put them back
+                for ev, txt in saved.items():
+                    open(ev, 'w').write(txt)
             os.remove(p2)
     out['checks'] = checks
     out['caught_by'] = [p for p, v in checks.items() if v['exit'] == 1]
